@@ -170,6 +170,98 @@ def normalizer_checks(ck, rng):
                         ck.violation("normalizer-list:%s:forward-reverse-not-transposes" % mode, {"lhs": lhs, "rhs": rhs})
 
 
+def forward_mode_plans(ck, rng):
+    """Occupation-derivative (forward-mode) routines one level below the normalisers: SemilocalPlan.get_occd against finite
+    differences of get_feat and as the transpose of get_vxc; LCAONLDFGenerator.get_features_and_occ_derivs against finite
+    differences of its own feature output along orbital-density directions (spline / train_gen interpolators)."""
+    import models as M
+    from pyscf.dft import numint as pni
+    from ciderpress.dft.plans import SemilocalPlan
+    from ciderpress.dft.settings import SemilocalSettings
+    from ciderpress.pyscf.gen_cider_grid import CiderGrids
+    from ciderpress.pyscf.nldf_convolutions import PySCFNLDFInitializer
+    n = 9
+    for mode in ("npa", "nst", "np", "ns"):
+        for nspin in (1, 2):
+            plan = SemilocalPlan(SemilocalSettings(mode), nspin)
+            ncomp = 5 if mode in ("npa", "nst") else 4
+            rho = np.zeros((nspin, ncomp, n))
+            rho[:, 0] = rng.uniform(0.05, 2.0, size=(nspin, n))
+            rho[:, 1:4] = rng.normal(size=(nspin, 3, n)) * 0.4 * rho[:, :1] ** (4.0 / 3)
+            if ncomp == 5:
+                sig = (rho[:, 1:4] ** 2).sum(1)
+                rho[:, 4] = sig / (8 * rho[:, 0]) + rng.uniform(0.1, 1.5, size=(nspin, n)) * rho[:, 0] ** (5.0 / 3)
+            drho = rng.normal(size=rho.shape) * 0.3 * rho[:, :1]
+            ck.count(key=("occd-sl", mode, nspin))
+            try:
+                feat, occd = plan.get_occd(rho.copy(), drho.copy())
+            except Exception as ex:  # noqa: BLE001
+                ck.violation("forward-mode:semilocal-plan:%s:%s" % (mode, type(ex).__name__), {"nspin": nspin, "msg": str(ex)[:200]})
+                continue
+            f0 = plan.get_feat(rho.copy())
+            h = 1e-5
+            f1 = (plan.get_feat(rho + h * drho) - plan.get_feat(rho - h * drho)) / (2 * h)
+            f2 = (plan.get_feat(rho + 2 * h * drho) - plan.get_feat(rho - 2 * h * drho)) / (4 * h)
+            g = (4 * f1 - f2) / 3
+            if np.abs(np.asarray(feat) - f0).max() > 1e-12 * (1 + np.abs(f0).max()):
+                ck.violation("forward-mode:semilocal-plan:%s:value-differs-from-get_feat" % mode, {"nspin": nspin})
+            excess = np.abs(np.asarray(occd) - g) - 20 * np.abs(f1 - f2) - 1e-7 * (1 + np.abs(g).max())
+            if not (excess.max() <= 0):
+                ck.violation("forward-mode:semilocal-plan:%s:occd-vs-fd" % mode, {"nspin": nspin, "excess": float(np.nanmax(excess))})
+            v = rng.normal(size=np.asarray(occd).shape)
+            vxc = np.asarray(plan.get_vxc(rho.copy(), v.copy()))
+            lhs, rhs = float((v * occd).sum()), float((vxc * drho[:, : vxc.shape[1]]).sum())
+            if abs(lhs - rhs) > 1e-10 * (1 + abs(lhs)):
+                ck.violation("forward-mode:semilocal-plan:%s:not-the-transpose-of-get_vxc" % mode, {"nspin": nspin, "lhs": lhs, "rhs": rhs})
+    mol = M.make_mol("H2O")
+    grids = CiderGrids(mol)
+    grids.atom_grid = (14, 50)
+    grids.build()
+    ao = pni.eval_ao(mol, grids.coords, deriv=1)
+    P = 2 * M.core_dm(mol)
+
+    def rho5(dm, level):
+        r = pni.eval_rho(mol, ao, dm, xctype="MGGA", with_lapl=False)
+        x = np.zeros((5 if level == "MGGA" else 4, r.shape[1]))
+        x[:4] = r[:4]
+        if level == "MGGA":
+            x[4] = r[-1]
+        return x
+    import scipy.linalg
+    from pyscf import scf
+    w, c = scipy.linalg.eigh(scf.hf.get_hcore(mol), mol.intor("int1e_ovlp"))
+    orbs = [np.outer(c[:, k], c[:, k]) for k in (2, 5)]
+    for ver in ("j", "i", "ij", "k"):
+        # (the on-site interpolators refuse this call by design; the exponent must depend on the density GRADIENT for the
+        # d(sigma) route to matter: GGA-level always, meta-GGA through the theta / feature gradient coefficients of models.py)
+        for interp, level in (("train_gen", "MGGA"), ("train_gen", "GGA")):
+            nl = M.nldf_settings(ver, level, "one")
+            gen = PySCFNLDFInitializer(nl, interpolator_type=interp).initialize_nldf_generator(mol, grids.grids_indexer, 1)
+            gen.interpolator.set_coords(grids.coords)
+            rho = rho5(P, level)
+            orb = np.stack([rho5(o, level) for o in orbs])
+            ck.count(key=("occd-nldf", ver, interp))
+            try:
+                feat, occd = gen.get_features_and_occ_derivs(rho.copy(), orb.copy())
+            except Exception as ex:  # noqa: BLE001
+                ck.violation("forward-mode:nldf-generator:%s:%s:%s" % (ver, interp, type(ex).__name__), {"msg": str(ex)[:200]})
+                continue
+            empty = np.zeros((0,) + rho.shape)
+            F = lambda r_: np.asarray(gen.get_features_and_occ_derivs(r_, empty)[0])
+            sel = rho[0] > 1e-4
+            for k in range(orb.shape[0]):
+                h = 1e-4
+                f1 = (F(rho + h * orb[k]) - F(rho - h * orb[k])) / (2 * h)
+                f2 = (F(rho + 2 * h * orb[k]) - F(rho - 2 * h * orb[k])) / (4 * h)
+                g = (4 * f1 - f2) / 3
+                scale = 1 + np.abs(g[..., sel]).max(axis=-1, keepdims=True)          # per feature
+                excess = (np.abs(np.asarray(occd[k]) - g) - 20 * np.abs(f1 - f2))[..., sel] - 2e-5 * scale
+                if not (excess.max() <= 0):
+                    ck.violation("forward-mode:nldf-generator:%s:%s:occd-vs-fd" % (ver, interp), {"orbital": k, "excess": float(np.nanmax(excess)),
+                                                                                               "feature": int(np.unravel_index(np.nanargmax(excess), excess.shape)[0])})
+                    break
+
+
 def two_phase(ck, rng):
     """spec/TwoPhase.tla: value / derivative routines called in every order over two inputs; every derivative call must equal
     the same call on a fresh object that never saw a value call (maps: every registered class alone and in a list;
@@ -289,6 +381,7 @@ def main():
     ck.sample({"lst": singles[len(singles) // 2][0], "rows": singles[len(singles) // 2][1]})
     normalizer_checks(ck, rng)
     two_phase(ck, rng)
+    forward_mode_plans(ck, rng)
     ck.assumptions = ["admissible domain: raw features in [0.15, 1.6] (positive densities, bounded reduced variables)",
                       "finite differences with Richardson extrapolation; a discrepancy counts only beyond 20x the FD error estimate + 1e-7"]
     return ck.finish()
